@@ -1,20 +1,27 @@
 SPEC_PART = dict(
     props_file="C13_hll",
     legs=[dict(family="hll", focus="foreign", oracles=["foreign_ok"], profiles=["debug", "release"],
-               mask=[2, 3, 7, 8, 9], n_quick=150, n_thorough=2000)],
+               mask=[2, 3, 4, 5, 7, 8, 9, 30, 31], n_quick=150, n_thorough=2000, panic_is_violation=True)],
     trusted=["hll format variants = my reading of the Java/C++ writers (DESIGN.md Appendix A): compact / updatable list and set, "
              "array images with or without COMPACT and OUT_OF_ORDER, Hll4 cur_min > 0 with a compact aux list, lgArr byte 0 or "
              "lgAuxArrInts; the updatable Hll4 aux table is generated too (known finding); no upstream files offline",
              "hll: the generator's spec encoder (tools/families/hll.py enc_list / enc_set / enc_hll, Java-compatible table builders) is "
-             "independent of the crate and of the model; Spec/HllLayout.v hll_spec_decode judges the crate's answer"],
+             "independent of the crate and of the model; Spec/HllLayout.v hll_spec_decode judges the crate's answer",
+             "hll: estimate() / bounds of OUT-OF-ORDER images run the composite estimator, which the model does not contain: they are "
+             "called on the crate only (op 32) and judged by the oracle (seven numbers, the estimate neither NaN nor negative)"],
     assumptions=[],
     covers="hll: both list variants are read back to the list they encode (c13_hll_list_variants_partial) and every Hll8 array "
-           "variant -- any flags byte, lgArr byte, numAtCurMin / auxCount fields -- to its k register bytes, recomputed num_zeros and "
-           "the flag's out-of-order state (c13_hll_hll8_variants_partial): proved; for set "
-           "(compact in any order / updatable table with colliding probe sequences) and the other array variants (Hll4/6 x COMPACT x "
-           "OUT_OF_ORDER x cur_min > 0 x smallest-possible exception x lgArr byte) the claim is checked, not proved: each spec-encoded "
-           "image must be accepted and the dumped state must be exactly what the independent decoder reads from the same bytes "
-           "(mode, lg_k, type, coupon set / registers, flag, cur_min, exceptions, kxq, hip); then the sketch is queried, re-serialized, "
-           "updated and round-tripped in lock step with the model. Defect D4 (registers skipped under COMPACT) was found here and "
-           "repaired. Known finding C13-hll-updatable-hll4-aux: updatable Hll4 images with a hash-table aux area are rejected.",
+           "variant of the SPEC encoder Spec.HllLayout.enc_hll_pre -- COMPACT set or not, OUT_OF_ORDER set or not, any lgArr / curMin "
+           "byte, any numAtCurMin / auxCount field, trailing bytes, finite non-negative estimator fields -- to its k register bytes, "
+           "recomputed num_zeros, the flag's out-of-order state, the encoded kxq0 / kxq1 and the encoded HIP accumulator (zero when "
+           "out of order) (c13_hll_hll8_variants_partial): proved; for set (compact in any order / updatable table with colliding "
+           "probe sequences) and the other array variants (Hll4/6 x COMPACT x OUT_OF_ORDER x cur_min > 0 x smallest-possible "
+           "exception x lgArr byte) the claim is checked, not proved: each spec-encoded image must be accepted and the dumped state "
+           "must be exactly what the independent decoder reads from the same bytes (mode, lg_k, type, coupon set / registers, flag, "
+           "cur_min, exceptions, kxq, hip); then, in lock step with the model (ops in the mask): estimate and six bounds (in-order "
+           "images; out-of-order ones on the crate only, see trusted), the image written back, its re-serialization (op 31), the "
+           "merge into a fresh union (op 30: the oracle requires the union to show the image's registers / coupon set), further "
+           "updates, the state after them, a round trip and the state after it. Defect D4 (registers skipped under COMPACT) was found "
+           "here and repaired. Known finding C13-hll-updatable-hll4-aux: updatable Hll4 images with a hash-table aux area are "
+           "rejected. Any panic is a violation (debug + release).",
 )
